@@ -293,6 +293,16 @@ func doBuild(in []byte, c cfg, prio []string) (*built, error) {
 
 func doWriter(ins [][]byte, c cfg) (*built, error) {
 	var out bytes.Buffer
+	b, stage, err := doWriterTo(&out, ins, c)
+	if err != nil {
+		return nil, fmt.Errorf("%s: %w", stage, err)
+	}
+	b.raw = out.Bytes()
+	return b, nil
+}
+
+// doWriterTo drives a Writer over dst; stage names the call that returned the error.
+func doWriterTo(dst io.Writer, ins [][]byte, c cfg) (_ *built, stage string, _ error) {
 	var comp estargz.Compressor
 	var ext *externaltoc.GzipCompressor
 	switch c.Comp {
@@ -304,7 +314,7 @@ func doWriter(ins [][]byte, c cfg) (*built, error) {
 		ext = externaltoc.NewGzipCompressorWithLevel(c.Level)
 		comp = ext
 	}
-	w := estargz.NewWriterWithCompressor(&out, comp)
+	w := estargz.NewWriterWithCompressor(dst, comp)
 	w.ChunkSize = c.CS
 	w.MinChunkSize = c.Min
 	for _, in := range ins {
@@ -315,22 +325,22 @@ func doWriter(ins [][]byte, c cfg) (*built, error) {
 			err = w.AppendTar(bytes.NewReader(in))
 		}
 		if err != nil {
-			return nil, err
+			return nil, "AppendTar", err
 		}
 	}
 	td, err := w.Close()
 	if err != nil {
-		return nil, err
+		return nil, "Close", err
 	}
-	b := &built{raw: out.Bytes(), tocDigest: td.String(), diffID: w.DiffID(), usize: -1}
+	b := &built{tocDigest: td.String(), diffID: w.DiffID(), usize: -1}
 	if ext != nil {
 		var tb bytes.Buffer
 		if _, err := ext.WriteTOCTo(&tb); err != nil {
-			return nil, err
+			return nil, "WriteTOCTo", err
 		}
 		b.extTOC = tb.Bytes()
 	}
-	return b, nil
+	return b, "", nil
 }
 
 func gz(b []byte) []byte {
@@ -546,6 +556,10 @@ func runCase(tarEnts []enumx.Ent, c cfg) (o obs, f *failure) {
 			return o, fail("toc-vs-tar", "TOC file %d %q: user/group name %q/%q, tar has %q/%q", i, e.Name, un[e.UID], gn[e.GID], out[i].Hdr.Uname, out[i].Hdr.Gname)
 		}
 	}
+	// ranged reads: the extent of every chunk, derived from the following offsets, covers its stream
+	if err := blob.RangeCheck(); err != nil {
+		return o, fail("spec-range-read", "fetching chunks by [offset, next offset): %v\nTOC: %s", err, compactTOC(blob))
+	}
 	// every payload stream before the TOC is reachable: offsets are non-decreasing in TOC order
 	var lastOff int64 = -1
 	for _, e := range blob.TOC.Entries {
@@ -636,6 +650,7 @@ var lastTOC string
 type replay struct {
 	Ents []enumx.Ent `json:"ents"`
 	Cfg  cfg         `json:"cfg"`
+	Q    *int        `json:"q,omitempty"` // dest-fault: byte quota of the destination
 }
 
 func key(c cfg, class string) string {
@@ -724,7 +739,7 @@ func enumPart(name string, cfgsOf func(string) []cfg, maxLen map[string]int) run
 						res.Outcomes["VIOLATION "+k]++
 						if !seen[k] {
 							seen[k] = true
-							r, m := minimize(replay{es, c}, f)
+							r, m := minimize(replay{Ents: es, Cfg: c}, f)
 							res.Violations = append(res.Violations, runner.Violation{Key: k,
 								Msg:    fmt.Sprintf("input tar %s, config %s\n%s", enumx.DescribeEnts(r.Ents), r.Cfg, m.msg),
 								Replay: r})
@@ -827,7 +842,7 @@ func minimize(r replay, f *failure) (replay, *failure) {
 			simpler = append(simpler, c)
 		}
 		for _, sc := range simpler {
-			if try(replay{r.Ents, sc}) {
+			if try(replay{Ents: r.Ents, Cfg: sc}) {
 				changed = true
 				break
 			}
@@ -858,6 +873,14 @@ func replayFn(ctx *runner.Ctx, raw json.RawMessage) (string, error) {
 	var r replay
 	if err := json.Unmarshal(raw, &r); err != nil {
 		return "", err
+	}
+	if r.Q != nil {
+		stage, f := faultCase(writerInputs(r.Ents, r.Cfg), r.Cfg, *r.Q, -1)
+		d := fmt.Sprintf("%s %s destination quota=%d: %s", enumx.DescribeEnts(r.Ents), r.Cfg, *r.Q, stage)
+		if f != nil {
+			return d, fmt.Errorf("%s: %s", f.class, f.msg)
+		}
+		return d, nil
 	}
 	_, f := runCase(r.Ents, r.Cfg)
 	if f != nil {
@@ -904,12 +927,239 @@ func bigPart() runner.Part {
 							k := key(c, f.class) + "/default-chunk-size"
 							if !seen[k] {
 								seen[k] = true
-								res.Violations = append(res.Violations, runner.Violation{Key: k, Msg: fmt.Sprintf("input tar %s, config %s\n%s", enumx.DescribeEnts(es), c, f.msg), Replay: replay{es, c}})
+								res.Violations = append(res.Violations, runner.Violation{Key: k, Msg: fmt.Sprintf("input tar %s, config %s\n%s", enumx.DescribeEnts(es), c, f.msg), Replay: replay{Ents: es, Cfg: c}})
 							}
 							continue
 						}
 						res.Nontrivial++
 						res.Outcomes[fmt.Sprintf("big %s/%s: data-chunks=%s", c.Mode, c.Comp, bucket(o.chunks))]++
+					}
+				}
+			}
+			return res
+		},
+		Replay: replayFn,
+	}
+}
+
+// combinePart: a targeted family for the merge of parallel sub-blobs: every ordering of 4 and of 5
+// entries out of {non-empty a (cs+1), empty b, non-empty c (2cs+1), empty e, dir d/} x workers {2,3}
+// x {gzip, zstd:chunked} x chunk size 3, so that non-first sub-blobs hold empty files after data.
+func combinePart() runner.Part {
+	const cs = 3
+	pool := []enumx.Ent{
+		{Name: "a", Type: tar.TypeReg, Size: cs + 1, Mode: 0o644},
+		{Name: "b", Type: tar.TypeReg, Size: 0, Mode: 0o644},
+		{Name: "c", Type: tar.TypeReg, Size: 2*cs + 1, Mode: 0o644},
+		{Name: "e", Type: tar.TypeReg, Size: 0, Mode: 0o600},
+		{Name: "d/", Type: tar.TypeDir, Mode: 0o755},
+	}
+	return runner.Part{
+		Name:   "combine",
+		Shards: 8,
+		Run: func(ctx *runner.Ctx) *runner.Result {
+			os.Setenv("TMPDIR", ctx.Scratch)
+			res := &runner.Result{Outcomes: map[string]int{}}
+			seen := map[string]bool{}
+			idx := -1
+			enumx.Sequences(len(pool), 5, func(seq []int) bool {
+				if len(seq) < 4 {
+					return true
+				}
+				used := map[int]bool{}
+				for _, x := range seq {
+					if used[x] {
+						return true // orderings: no repetition
+					}
+					used[x] = true
+				}
+				idx++
+				if idx%ctx.Of != ctx.Shard {
+					return true
+				}
+				if time.Now().After(ctx.Deadline) {
+					res.Caps = appendUniq(res.Caps, "time budget")
+					return false
+				}
+				var es []enumx.Ent
+				for _, x := range seq {
+					es = append(es, pool[x])
+				}
+				res.States++
+				for _, comp := range []string{"gzip", "zstd"} {
+					for _, w := range []int{2, 3} {
+						c := cfg{Mode: "build", CS: cs, Comp: comp, Level: 1, In: "plain", Workers: w, Via: "option"}
+						o, f := runCase(es, c)
+						res.Evaluations++
+						res.Transitions += int64(len(es))
+						if f != nil {
+							k := key(c, f.class)
+							res.Outcomes["VIOLATION "+k]++
+							if !seen[k] {
+								seen[k] = true
+								r, m := minimize(replay{Ents: es, Cfg: c}, f)
+								res.Violations = append(res.Violations, runner.Violation{Key: k,
+									Msg: fmt.Sprintf("input tar %s, config %s\n%s", enumx.DescribeEnts(r.Ents), r.Cfg, m.msg), Replay: r})
+							}
+							continue
+						}
+						res.Nontrivial++
+						res.Outcomes[fmt.Sprintf("combine %s workers=%d: data-chunks=%s", comp, w, bucket(o.chunks))]++
+					}
+				}
+				return true
+			})
+			return res
+		},
+		Replay: replayFn,
+	}
+}
+
+func appendUniq(l []string, s string) []string {
+	for _, x := range l {
+		if x == s {
+			return l
+		}
+	}
+	return append(l, s)
+}
+
+// ---- destination faults -------------------------------------------------------------------
+
+// quotaWriter accepts q bytes in total, then fails (short write + error, then errors only).
+type quotaWriter struct {
+	q   int
+	buf bytes.Buffer
+}
+
+var errQuota = fmt.Errorf("destination quota exceeded")
+
+func (w *quotaWriter) Write(p []byte) (int, error) {
+	room := w.q - w.buf.Len()
+	if len(p) <= room {
+		return w.buf.Write(p)
+	}
+	if room > 0 {
+		w.buf.Write(p[:room])
+	} else {
+		room = 0
+	}
+	return room, errQuota
+}
+
+func writerInputs(es []enumx.Ent, c cfg) [][]byte {
+	full := enumx.BuildTar(es)
+	if c.Mode == "append2" && len(es) >= 2 {
+		return [][]byte{enumx.BuildTar(es[:1]), tailTar(full)}
+	}
+	return [][]byte{full}
+}
+
+// faultCase runs a Writer over a destination that fails after q bytes. Either some call reports an
+// error, or the destination must hold the complete blob; a nil error with a truncated destination
+// is a violation. fullLen < 0: unknown (replay).
+func faultCase(ins [][]byte, c cfg, q int, fullLen int) (stage string, f *failure) {
+	defer func() {
+		if r := recover(); r != nil {
+			f = fail("dest-fault/panic", "panic with destination quota %d: %v\n%s", q, r, debug.Stack())
+		}
+	}()
+	if fullLen < 0 {
+		var out bytes.Buffer
+		if _, st, err := doWriterTo(&out, ins, c); err != nil {
+			return "", fail("harness", "fault-free run failed in %s: %v", st, err)
+		}
+		fullLen = out.Len()
+	}
+	dst := &quotaWriter{q: q}
+	_, stage, err := doWriterTo(dst, ins, c)
+	if err != nil {
+		return "error surfaced in " + stage, nil
+	}
+	if dst.buf.Len() < fullLen {
+		return "", fail("dest-fault/close-nil-on-truncated-output", "the destination accepted %d of the %d bytes of the blob and failed the write after that, yet AppendTar and Close returned nil errors: a truncated blob (no valid footer) was reported as written", dst.buf.Len(), fullLen)
+	}
+	return "complete", nil
+}
+
+// faultPart: for a few small tars and every Writer mode/compressor, sweep EVERY byte quota q in
+// [0, len(full output)) of the destination.
+func faultPart() runner.Part {
+	tars := [][]enumx.Ent{
+		{{Name: "a", Type: tar.TypeReg, Size: 4, Mode: 0o644}},
+		{{Name: "d/", Type: tar.TypeDir, Mode: 0o755}, {Name: "d/f", Type: tar.TypeReg, Size: 7, Mode: 0o644}, {Name: "e", Type: tar.TypeReg, Size: 0, Mode: 0o644}},
+		{{Name: "a", Type: tar.TypeReg, Size: 9, Mode: 0o644}, {Name: "b", Type: tar.TypeReg, Size: 700, Mode: 0o644}, {Name: "h", Type: tar.TypeLink, Link: "a", Mode: 0o644}, {Name: "c", Type: tar.TypeReg, Size: 3, Mode: 0o644}},
+	}
+	type cc struct {
+		comp  string
+		level int
+	}
+	return runner.Part{
+		Name:   "dest-fault",
+		Shards: 8,
+		Run: func(ctx *runner.Ctx) *runner.Result {
+			res := &runner.Result{Outcomes: map[string]int{}}
+			seen := map[string]bool{}
+			idx := -1
+			for ti, es := range tars {
+				for _, mode := range []string{"append", "lossless", "append2"} {
+					// level 0 (stored blocks) makes the output exceed the Writer's 4 KiB buffer, so that
+					// faults hit intermediate flushes as well as the final one (largest tar only);
+					// min-chunk 256 (shared streams) with gzip on the 3-entry tar
+					for _, k := range []cc{{"gzip", 1}, {"gzip", 0}, {"zstd", 1}, {"ext", 1}} {
+						for _, min := range []int{0, 256} {
+							if mode == "append2" && len(es) < 2 || k.level == 0 && (ti != len(tars)-1 || mode == "append2") ||
+								min > 0 && (ti != 2 || k != cc{"gzip", 1}) {
+								continue
+							}
+							idx++
+							c := cfg{Mode: mode, CS: 3, Min: min, Comp: k.comp, Level: k.level, In: "plain"}
+							ins := writerInputs(es, c)
+							var out bytes.Buffer
+							if _, st, err := doWriterTo(&out, ins, c); err != nil {
+								res.Broken = fmt.Sprintf("fault-free run of %s %s failed in %s: %v", enumx.DescribeEnts(es), c, st, err)
+								return res
+							}
+							full := out.Len()
+							res.States++
+							for q := 0; q < full; q++ {
+								if (idx+q)%ctx.Of != ctx.Shard {
+									continue // every shard takes every Of-th quota of every combination
+								}
+								if q%64 == 0 && time.Now().After(ctx.Deadline) {
+									res.Caps = appendUniq(res.Caps, "time budget")
+									return res
+								}
+								stage, f := faultCase(ins, c, q, full)
+								res.Evaluations++
+								res.Transitions++
+								if f != nil {
+									if f.class == "harness" {
+										res.Broken = f.msg
+										return res
+									}
+									kk := "C03/" + f.class
+									res.Outcomes["VIOLATION "+kk]++
+									if !seen[kk] {
+										seen[kk] = true
+										qq := q
+										res.Violations = append(res.Violations, runner.Violation{Key: kk,
+											Msg:    fmt.Sprintf("input tar %s, config %s, destination fails after %d of %d bytes\n%s", enumx.DescribeEnts(es), c, q, full, f.msg),
+											Replay: replay{Ents: es, Cfg: c, Q: &qq}})
+									}
+									continue
+								}
+								if stage == "error surfaced in Close" {
+									res.Nontrivial++ // only the final flush / TOC write could notice
+								}
+								res.Outcomes[fmt.Sprintf("dest-fault %s/%s(level %d): %s", mode, k.comp, k.level, stage)]++
+							}
+							// q == full: everything fits
+							if stage, f := faultCase(ins, c, full, full); f != nil || stage != "complete" {
+								res.Broken = fmt.Sprintf("destination with exactly enough room: %s %v", stage, f)
+								return res
+							}
+						}
 					}
 				}
 			}
@@ -934,7 +1184,8 @@ func main() {
 		Level: "exploration",
 		Rule: "every tar of <= N entries (quick: <=2 over the full alphabet, 3 over the 7-symbol core alphabet {d/, a:0, a:cs+1, a:2cs+1, d/f:cs, hardlink, xattr file}; thorough: <=3 full, 4 core) over the alphabet {dir d/, file a with size 0,1,cs-1,cs,cs+1,2cs+1, nested file d/f with size 0,cs,2cs+1, symlink, hardlink, file with xattrs/owner/mtime; repeated names = duplicates} " +
 			"x {Build, Writer.AppendTar, AppendTar twice, AppendTarLossLess} x chunk size {3,8,default} x min-chunk-size {0,5,64,256} x {gzip, zstd:chunked, external TOC} x prioritized {none, one} x input {plain, gzip, zstd, already-eStargz} x workers 1..4 (GOMAXPROCS and WithParallelism); " +
-			"plus files of 4MiB-1, 4MiB, 4MiB+1, 8MiB+1 under the default chunk size. Oracles: archive/tar + compress/gzip|zstd on the whole blob, a from-the-spec footer/TOC/chunk reader, sha256 of TOC JSON and decompressed stream, byte equality in lossless mode. " +
+			"plus files of 4MiB-1, 4MiB, 4MiB+1, 8MiB+1 under the default chunk size; plus (combine) every ordering of 4 and 5 entries of {a(cs+1), empty b, c(2cs+1), empty e, d/} x workers {2,3} x {gzip, zstd} at chunk 3; " +
+			"plus (dest-fault) 3 small tars x {AppendTar, AppendTar twice, AppendTarLossLess} x {gzip level 1, zstd, external TOC; gzip level 0 (output > 4 KiB buffer) on the largest; min-chunk 256 with gzip on one} with a destination that fails after q bytes for EVERY q < len(output): an error must surface or the output be complete. Oracles: archive/tar + compress/gzip|zstd on the whole blob, a from-the-spec footer/TOC/chunk reader incl. ranged reads [offset, next offset), sha256 of TOC JSON and decompressed stream, byte equality in lossless mode. " +
 			"non-trivial = case whose blob holds >= 2 data chunks (offset bookkeeping matters)",
 		Assumptions: []string{
 			"archive/tar, compress/gzip, compress/flate and klauspost/compress/zstd decoders are correct (they are the oracle)",
@@ -946,7 +1197,7 @@ func main() {
 		Parts: func(tier string) []runner.Part {
 			ml := map[string]int{"quick": 3, "thorough": 4}
 			all := func(t string) []cfg { return append(buildCfgs(t), writerCfgs(t)...) }
-			return []runner.Part{bigPart(), enumPart("enum", all, ml)}
+			return []runner.Part{bigPart(), combinePart(), faultPart(), enumPart("enum", all, ml)}
 		},
 	})
 }
